@@ -22,7 +22,7 @@ PROSE = list('abcxyzQRS019.,;:!?()/=+*<>|@"\'') + ['ä', 'é', 'ß', 'ж', 'Ω',
 PROSE_WS = [' ', ' ', ' ', '\n', '\n', '  ', '\n\n', '\t', '\n \n', ' \n', '\x0b', '\x0c', '\x1c',
             '\x85', ' ', '\u3000', '\u2009', '\u2003', '\n\n\n', '\r\n', '\r']
 RAND = ATOMS + ['c', 'D', 'é', 'ж', '1', ';', ':', '!', '(', ')', '--', '---', '``', "''", '  ',
-                '\n\n', '\t', '"']
+                '\n\n', '\t', '"', '*', '*', '=', '+', '/', '<', '>', '|', '@', '?', '0']
 
 
 def units(s):
